@@ -15,7 +15,7 @@ from vlib import progs, images, decoders
 
 FORMATS = ["hex", "srec", "elf", "wdc", "uf2", "bin"]
 SPARSE = ("hex", "srec", "wdc")          # skip unwritten bytes
-CONTIG = ("elf", "uf2", "bin")           # serialise the whole span low..high
+CONTIG = ("elf", "uf2", "bin", "amiga")           # serialise the whole span low..high
 
 
 class C03(Engine):
@@ -44,6 +44,8 @@ class C03(Engine):
         cpu = images.IMAGE_CPUS[index % len(images.IMAGE_CPUS)] if index < self.directed() else None
         img = images.gen_image(rng, cpu=cpu)
         fmts = list(FORMATS) if rng.chance(1, 2) else rng.subset(FORMATS, 1, 2) or [rng.pick(FORMATS)]
+        if img["cpu"] == "68000" and (index < self.directed() or rng.chance(2, 3)):
+            fmts.append("amiga")         # hunk files carry no address and naken_util loads them as 68000 code
         return {"cpu": img["cpu"], "segments": [[a, d.hex()] for a, d in img["segments"]], "entry": img["entry"],
                 "exports": img["exports"], "formats": fmts,
                 "stale": rng.pick([0, 0, 100, 5000, 200000]), "clock0": 1000000000 + rng.below(10 ** 9),
@@ -113,6 +115,8 @@ class C03(Engine):
                 mem, meta, problems = decoders.decode_bin(data, lo)
                 if len(data) != hi - lo + 1:
                     res.viol("decode:bin:length", got=len(data), want=hi - lo + 1)
+            elif fmt == "amiga":
+                mem, meta, problems = decoders.decode_amiga(data, lo)
             else:
                 mem, meta, problems = decoders.DECODERS[fmt](data)
             for pr in problems[:1]:
@@ -170,6 +174,9 @@ class C03(Engine):
                 console.append("symbols")
             console.append("quit")
             argv = ["naken_util", "-" + cpu]
+            if fmt == "amiga" and lo != 0:
+                res.probe("amiga_loadback_skipped_image_not_at_0")     # a hunk has no address: naken_util loads it at 0
+                continue
             if fmt == "bin":
                 if bpa != 1:
                     res.probe("bin_loadback_skipped_bpa")
